@@ -26,8 +26,9 @@
 #define WV_BG_CONFIGURED(g, T, fi, fo, pad) ((g)->size == (T) && (g)->fin == (fi) && (g)->fout == (fo) && (g)->ispadding == (pad) && (g)->turn == 0 && !(g)->over)
 
 buffergroup *buffergroup__get_instance(void)
+__CPROVER_requires(!buffergroup__mtx.held)
 __CPROVER_assigns(buffergroup__instance, buffergroup__mtx)
-__CPROVER_ensures(__CPROVER_return_value == buffergroup__instance && buffergroup__instance != NULL)
+__CPROVER_ensures(__CPROVER_return_value == buffergroup__instance && buffergroup__instance != NULL && !buffergroup__mtx.held)
 __CPROVER_ensures(__CPROVER_old(buffergroup__instance) != NULL ==> buffergroup__instance == __CPROVER_old(buffergroup__instance))
 __CPROVER_ensures(__CPROVER_old(buffergroup__instance) == NULL ==> (__CPROVER_is_fresh(buffergroup__instance, sizeof(buffergroup)) &&
   buffergroup__instance->buflst == NULL && buffergroup__instance->ctrl == NULL && buffergroup__instance->turn == 0 && !buffergroup__instance->over));
@@ -39,13 +40,14 @@ __CPROVER_ensures(this->size == size && this->fin == fin && this->fout == fout &
 __CPROVER_ensures(__CPROVER_is_fresh(this->buflst, sizeof(iobuffer) * WV_TSZ(size)) && __CPROVER_is_fresh(this->ctrl, sizeof(bufferctrl) * WV_TSZ(size)))
 __CPROVER_ensures(bufferctrl__live_num == size && WV_BG_EMPTY(this));
 
+/* (called with an instance: after every pipeline run; the NULL case is the obligation bg_del_instance_null, a harness) */
 void buffergroup__del_instance(void)
-__CPROVER_requires(buffergroup__instance == NULL || (__CPROVER_is_fresh(buffergroup__instance, sizeof(buffergroup)) && WV_T_IS(buffergroup__instance->size) &&
+__CPROVER_requires(!buffergroup__mtx.held && __CPROVER_is_fresh(buffergroup__instance, sizeof(buffergroup)) && WV_T_IS(buffergroup__instance->size) &&
   __CPROVER_is_fresh(buffergroup__instance->buflst, sizeof(iobuffer) * WV_TSZ(buffergroup__instance->size)) &&
-  __CPROVER_is_fresh(buffergroup__instance->ctrl, sizeof(bufferctrl) * WV_TSZ(buffergroup__instance->size))))
+  __CPROVER_is_fresh(buffergroup__instance->ctrl, sizeof(bufferctrl) * WV_TSZ(buffergroup__instance->size)))
 __CPROVER_assigns(buffergroup__instance, buffergroup__mtx)
 __CPROVER_frees(buffergroup__instance, buffergroup__instance->buflst, buffergroup__instance->ctrl)
-__CPROVER_ensures(buffergroup__instance == NULL);
+__CPROVER_ensures(buffergroup__instance == NULL && !buffergroup__mtx.held);
 
 /* ---------------- runcrypt object: the members that duplicate the constructor arguments agree */
 #define WV_RC_OK(rc) ((rc)->header.fp == (rc)->fin && (rc)->header.out == (rc)->out && (rc)->header.key == (rc)->key && (rc)->header.num == (rc)->threads_num && \
